@@ -15,7 +15,7 @@ Definition known_alg (alg : string) : bool :=
 (* the hash oracle yields at least two bytes for the strings that get hashed *)
 Definition hashes_ok (c : case) : bool :=
   let Hf := lookup_hash (cs_hashes c) in
-  let alg := sk_alg (cs_key c) in
+  let alg := sk_alg (case_key_id c) in
   let w := access_wire (r_access (model_response c)) in
   ((w =s "") || negb (claim_hash Hf alg w =s ""))
   && ((flow_code (cs_flow c) =s "") || negb (claim_hash Hf alg (flow_code (cs_flow c)) =s "")).
@@ -24,6 +24,7 @@ Definition wf (c : case) : bool :=
   let cl := eff_client (cs_flow c) (cs_req c) (cs_client c) in
   negb (rq_sub (cs_req c) =s "") && negb (cl_id (cs_client c) =s "")
   && key_ok (cs_key c) && known_alg (sk_alg (cs_key c))
+  && ((cs_rot c =? 0) || (key_ok (cs_key2 c) && known_alg (sk_alg (cs_key2 c))))
   && Z.ltb 0 (cs_now0 c) && Z.leb (cs_now0 c) (cs_now1 c) && Z.eqb (sec (cs_now0 c)) (sec (cs_now1 c))
   && Z.ltb 0 (sec (cs_now0 c) - cl_skew cl)
   && (List.length (en_iv (cs_ent c)) =? 16) && all_bytes (en_iv (cs_ent c))
@@ -189,8 +190,8 @@ Qed.
 Record wfP (c : case) : Prop := mkWfP {
   w_sub : rq_sub (cs_req c) <> "";
   w_client : cl_id (cs_client c) <> "";
-  w_key : key_ok (cs_key c) = true;
-  w_alg : hash_of_alg (sk_alg (cs_key c)) <> None;
+  w_key : forall n, key_ok (key_at_call (cs_rot c) (cs_key c) (cs_key2 c) n) = true;
+  w_alg : forall n, hash_of_alg (sk_alg (key_at_call (cs_rot c) (cs_key c) (cs_key2 c) n)) <> None;
   w_now : (0 < cs_now0 c)%Z;
   w_now01 : (cs_now0 c <= cs_now1 c)%Z;
   w_sec : sec (cs_now0 c) = sec (cs_now1 c);
@@ -204,14 +205,22 @@ Record wfP (c : case) : Prop := mkWfP {
   w_hashes : hashes_ok c = true
 }.
 
+Lemma known_alg_some alg : known_alg alg = true -> hash_of_alg alg <> None.
+Proof. unfold known_alg. destruct (hash_of_alg alg); [discriminate | discriminate 1]. Qed.
+
 Lemma wf_elim c : wf c = true -> wfP c.
 Proof.
   unfold wf. rewrite !andb_true_iff.
-  intros ((((((((((((((H1 & H2) & H3) & H4) & H5) & H6) & H7) & H8) & H9) & H10) & H11) & H12) & H13) & H14) & H15).
+  intros (((((((((((((((H1 & H2) & H3) & H4) & H4') & H5) & H6) & H7) & H8) & H9) & H10) & H11) & H12) & H13) & H14) & H15).
+  assert (Hk : forall n, key_ok (key_at_call (cs_rot c) (cs_key c) (cs_key2 c) n) = true
+                         /\ known_alg (sk_alg (key_at_call (cs_rot c) (cs_key c) (cs_key2 c) n)) = true).
+  { intro n. unfold key_at_call. destruct (cs_rot c =? 0) eqn:Er; cbn [orb] in *; [auto|].
+    destruct (n <=? cs_rot c); [auto|]. apply andb_true_iff in H4'. exact H4'. }
   constructor; try assumption.
   - apply negb_true_iff in H1. now apply eqb_neq_s.
   - apply negb_true_iff in H2. now apply eqb_neq_s.
-  - unfold known_alg in H4. destruct (hash_of_alg (sk_alg (cs_key c))); [discriminate | discriminate H4].
+  - intro n. apply (Hk n).
+  - intro n. apply known_alg_some. apply (Hk n).
   - lia.
   - lia.
   - lia.
@@ -225,24 +234,44 @@ Lemma sec_bounds t : (sec t * ns <= t < sec t * ns + ns)%Z.
 Proof. unfold sec, ns. lia. Qed.
 
 (* ---------------- part 1: the key is published ---------------- *)
-Lemma key_published_model c r : key_published c (model_checks c r) = true.
+Lemma jwk_eqb_refl x : jwk_eqb x x = true.
 Proof.
-  unfold key_published, model_checks. cbn [k_keys served_keys existsb k_id k_mat].
-  now rewrite eqb_refl_s, N.eqb_refl.
+  unfold jwk_eqb. rewrite !String.eqb_refl, N.eqb_refl. now destruct (k_ty x).
 Qed.
 
-Lemma signed_by_current_model c : signed_by_current c (sign_desc (cs_key c)) = true.
+Lemma keys_served_model c r : keys_served c (model_checks c r) = true.
 Proof.
-  unfold signed_by_current, sign_desc. cbn [j_mat j_alg j_kid].
-  now rewrite N.eqb_refl, !eqb_refl_s.
+  unfold keys_served, model_checks, served_keys. cbn [k_keys].
+  apply forallb_forall. intros x Hx. apply existsb_exists. exists x. split; [exact Hx | apply jwk_eqb_refl].
+Qed.
+
+Lemma signed_by_refl k : signed_by k (sign_desc k) = true.
+Proof. unfold signed_by, sign_desc. cbn [j_mat j_alg j_kid]. now rewrite N.eqb_refl, !eqb_refl_s. Qed.
+
+Lemma signed_by_current_model c n :
+  signed_by_current c (sign_desc (key_at_call (cs_rot c) (cs_key c) (cs_key2 c) n)) = true.
+Proof.
+  unfold signed_by_current, key_at_call. destruct (cs_rot c =? 0); cbn [orb negb andb].
+  - now rewrite signed_by_refl.
+  - destruct (n <=? cs_rot c); rewrite signed_by_refl; [reflexivity | apply orb_true_r].
+Qed.
+
+Lemma keys_consistent_key c algs n :
+  keys_consistent c algs = true ->
+  let k := key_at_call (cs_rot c) (cs_key c) (cs_key2 c) n in
+  string_in (sk_alg k) (effective_algs algs) = true /\ published_once k (cs_keys c) = true.
+Proof.
+  unfold keys_consistent, key_at_call. rewrite !andb_true_iff. intros ((Ha & Hp) & Hr). cbv zeta.
+  destruct (cs_rot c =? 0); cbn [orb] in *; [auto|].
+  destruct (n <=? cs_rot c); [auto|]. apply andb_true_iff in Hr. exact Hr.
 Qed.
 
 (* ---------------- part 2: the ID token ---------------- *)
 Lemma model_r_id c j ic :
   r_id (model_response c) = Some (j, ic) ->
   has_id_token (cs_flow c) (rq_scopes (cs_req c)) = true
-  /\ j = sign_desc (cs_key c)
-  /\ ic = mk_id_token (lookup_hash (cs_hashes c)) (cs_issuer c) (cs_flow c) (cs_client c) (cs_key c)
+  /\ j = sign_desc (case_key_id c)
+  /\ ic = mk_id_token (lookup_hash (cs_hashes c)) (cs_issuer c) (cs_flow c) (cs_client c) (case_key_id c)
                       (cs_user c) (cs_req c) (access_wire (r_access (model_response c))) (cs_now0 c).
 Proof.
   unfold model_response, create_token_response. cbn [r_id r_access].
@@ -254,7 +283,7 @@ Qed.
 Lemma consistent_elim c :
   consistent c = true ->
   let v := cs_verifier c in
-  string_in (sk_alg (cs_key c)) (effective_algs (v_algs v)) = true
+  keys_consistent c (v_algs v) = true
   /\ v_issuer v = cs_issuer c /\ v_client v = the_client c
   /\ (0 <= v_offset v)%Z /\ (- the_skew c * ns <= v_offset v)%Z
   /\ (v_offset v + 2 * ns <= (cl_id_life (cs_client c) + the_skew c) * ns)%Z
@@ -287,18 +316,19 @@ Proof.
   pose proof (sec_bounds (cs_now0 c)) as Sb. pose proof (w_now c W) as Wn.
   set (Hf := lookup_hash (cs_hashes c)) in *.
   set (acc := access_wire (r_access (model_response c))) in *.
-  pose proof (id_core Hf (cs_issuer c) (cs_flow c) (cs_client c) (cs_key c) (cs_user c) (cs_req c) acc (cs_now0 c))
+  pose proof (id_core Hf (cs_issuer c) (cs_flow c) (cs_client c) (case_key_id c) (cs_user c) (cs_req c) acc (cs_now0 c))
     as (Iiss & Iaud & Iazp & _ & Iexp & Iiat & _ & Inonce & Iacr & _ & Iath & _).
-  pose proof (id_sub Hf (cs_issuer c) (cs_flow c) (cs_client c) (cs_key c) (cs_user c) (cs_req c) acc (cs_now0 c)) as Isub.
+  pose proof (id_sub Hf (cs_issuer c) (cs_flow c) (cs_client c) (case_key_id c) (cs_user c) (cs_req c) acc (cs_now0 c)) as Isub.
   rewrite <- Hic in *.
   assert (Hv : verify_id_token sym_verify (cs_verifier c)
-                 (KSOpenID (Some (served_keys (cs_key c) (cs_extra_keys c))))
-                 (sym_token (sign_desc (cs_key c))) (MidOk "P" (to_c01 ic)) (cs_vnow c)
-               = Accept (to_c01 ic) (sk_alg (cs_key c))).
+                 (KSOpenID (Some (served_keys (cs_keys c))))
+                 (sym_token (sign_desc (case_key_id c))) (MidOk "P" (to_c01 ic)) (cs_vnow c)
+               = Accept (to_c01 ic) (sk_alg (case_key_id c))).
   { apply verify_id_accepts; cbn [to_c01 c_sub c_iss c_aud c_azp c_exp c_iat c_nonce c_acr].
     - apply sym_sign_complete.
     - apply (w_key c W).
-    - exact Ca.
+    - apply (keys_consistent_key c _ _ Ca).
+    - apply (keys_consistent_key c _ _ Ca).
     - rewrite Isub. apply (w_sub c W).
     - now rewrite Iiss, Ci.
     - rewrite Iaud, Ccl, Hcl. apply string_in_append_client.
@@ -315,9 +345,9 @@ Proof.
   unfold model_checks. cbn [k_id_verdict]. rewrite Hid, Hj.
   fold Hf. 
   assert (Ht : verify_tokens sym_verify Hf (cs_verifier c)
-                 (KSOpenID (Some (served_keys (cs_key c) (cs_extra_keys c))))
-                 (sym_token (sign_desc (cs_key c))) (MidOk "P" (to_c01 ic)) acc (cs_vnow c)
-               = Accept (to_c01 ic) (sk_alg (cs_key c))).
+                 (KSOpenID (Some (served_keys (cs_keys c))))
+                 (sym_token (sign_desc (case_key_id c))) (MidOk "P" (to_c01 ic)) acc (cs_vnow c)
+               = Accept (to_c01 ic) (sk_alg (case_key_id c))).
   { apply verify_tokens_accepts; [exact Hv | cbn [to_c01 c_at_hash]; exact Iath | apply (w_alg c W)]. }
   destruct (r_access (model_response c)) eqn:Ea.
   - now rewrite Hv.
@@ -348,10 +378,10 @@ Proof.
   pose proof (w_hashes c W) as Wh. unfold hashes_ok in Wh. apply andb_true_iff in Wh as [Wh1 Wh2].
   set (Hf := lookup_hash (cs_hashes c)) in *.
   set (acc := access_wire (r_access (model_response c))) in *.
-  pose proof (id_core Hf (cs_issuer c) (cs_flow c) (cs_client c) (cs_key c) (cs_user c) (cs_req c) acc (cs_now0 c))
+  pose proof (id_core Hf (cs_issuer c) (cs_flow c) (cs_client c) (case_key_id c) (cs_user c) (cs_req c) acc (cs_now0 c))
     as (Iiss & Iaud & Iazp & _ & Iexp & Iiat & Iauth & Inonce & Iacr & Iamr & Iath & Ich & Iex).
-  pose proof (id_sub Hf (cs_issuer c) (cs_flow c) (cs_client c) (cs_key c) (cs_user c) (cs_req c) acc (cs_now0 c)) as Isub.
-  pose proof (id_user_claims Hf (cs_issuer c) (cs_flow c) (cs_client c) (cs_key c) (cs_user c) (cs_req c) acc (cs_now0 c))
+  pose proof (id_sub Hf (cs_issuer c) (cs_flow c) (cs_client c) (case_key_id c) (cs_user c) (cs_req c) acc (cs_now0 c)) as Isub.
+  pose proof (id_user_claims Hf (cs_issuer c) (cs_flow c) (cs_client c) (case_key_id c) (cs_user c) (cs_req c) acc (cs_now0 c))
     as (Un & Ue & Uv & Uu & Up & Upv & Ua).
   rewrite <- Hic in *.
   assert (Hg : id_granted c (model_response c) = granted (cs_flow c) (cs_client c) (cs_req c) acc).
@@ -403,7 +433,7 @@ Lemma model_r_access c :
   r_access (model_response c) =
   if has_access (cs_flow c)
   then mk_access (lookup_block (cs_aes c)) (cs_issuer c) (cs_flow c)
-                 (eff_client (cs_flow c) (cs_req c) (cs_client c)) (cs_key c) (cs_req c)
+                 (eff_client (cs_flow c) (cs_req c) (cs_client c)) (case_key_at c) (cs_req c)
                  (cs_ids c) (cs_ent c) (cs_now0 c)
   else ANone.
 Proof. reflexivity. Qed.
@@ -434,24 +464,27 @@ Proof.
   unfold mk_access. fold cl. destruct (cl_jwt_at cl) eqn:Ejwt.
   - (* JWT *)
     assert (Hacc : r_access (model_response c) =
-                   AJwt (en_jwt_wire (cs_ent c)) (sign_desc (cs_key c))
+                   AJwt (en_jwt_wire (cs_ent c)) (sign_desc (case_key_at c))
                         (mk_access_token_claims (cs_issuer c) (cs_flow c) cl (cs_req c)
                            (token_id (cs_flow c) cl (cs_req c) (cs_ids c))
                            (st_exp (cs_now0 c) (cl_at_life cl)) (cs_now0 c))).
     { rewrite model_r_access, Eha. unfold mk_access. fold cl. now rewrite Ejwt. }
     set (ac := mk_access_token_claims _ _ _ _ _ _ _) in *.
     assert (Hrd : at_consistent c = true -> readers_ok c (model_checks c (model_response c)) = true).
-    { intro Hc. unfold at_consistent in Hc. rewrite !andb_true_iff in Hc. destruct Hc as ((_ & Hv0) & Hv1).
+    { intro Hc. unfold at_consistent in Hc. rewrite !andb_true_iff in Hc. destruct Hc as ((Ka & Hv0) & Hv1).
+      pose proof (keys_consistent_key c _ 1 Ka) as (Kalg & Kpub). cbv zeta in Kalg, Kpub. fold (case_key_at c) in Kalg, Kpub.
       pose proof (at_time_ok c W ltac:(lia) ltac:(lia)) as (T0 & T1). fold cl in T1.
       unfold readers_ok, stored_id. rewrite Hst.
       unfold model_checks. cbn [k_readers k_userinfo]. rewrite Hacc.
       unfold provider_verifier.
-      rewrite (verify_access_accepts sym_verify (cs_issuer c) [sk_alg (cs_key c)] (cs_key c) (cs_extra_keys c)
+      cbn [sign_desc j_alg].
+      rewrite (verify_access_accepts sym_verify (cs_issuer c) [sk_alg (case_key_at c)] (case_key_at c) (cs_keys c)
                  (at_to_c01 ac) (cs_vnow c)).
       + cbn [List.length forallb option_eqb pair_eqb fst snd a_jti a_sub ac mk_access_token_claims].
         now rewrite !pair_eqb_refl.
       + apply sym_sign_complete.
       + apply (w_key c W).
+      + exact Kpub.
       + cbn. now rewrite eqb_refl_s.
       + reflexivity.
       + exact T0.
@@ -461,10 +494,11 @@ Proof.
     + reflexivity.
     + apply signed_by_current_model.
     + destruct (at_consistent c) eqn:Ec; [|reflexivity].
-      unfold at_consistent in Ec. rewrite !andb_true_iff in Ec. destruct Ec as ((Ea & Hv0) & Hv1).
+      unfold at_consistent in Ec. rewrite !andb_true_iff in Ec. destruct Ec as ((Ka & Hv0) & Hv1).
+      pose proof (keys_consistent_key c _ 1 Ka) as (Ea & Kpub). cbv zeta in Ea, Kpub. fold (case_key_at c) in Ea, Kpub.
       pose proof (at_time_ok c W ltac:(lia) ltac:(lia)) as (T0 & T1). fold cl in T1.
       unfold model_checks. cbn [k_at_verdict]. rewrite Hacc. fold ac.
-      rewrite (verify_access_accepts sym_verify (cs_issuer c) (cs_at_algs c) (cs_key c) (cs_extra_keys c)
+      rewrite (verify_access_accepts sym_verify (cs_issuer c) (cs_at_algs c) (case_key_at c) (cs_keys c)
                  (at_to_c01 ac) (cs_vnow c)); try reflexivity; try assumption.
       * apply sym_sign_complete.
       * apply (w_key c W).
@@ -535,7 +569,7 @@ Qed.
 Theorem spec_model : forall c, wf c = true -> spec (ICase c) (model (ICase c)) = true.
 Proof.
   intros c Hw. apply wf_elim in Hw. cbn [model spec]. split_and.
-  - apply key_published_model.
+  - apply keys_served_model.
   - destruct (r_id (model_response c)) as [[j ic]|] eqn:Eid; [|reflexivity].
     now apply id_token_ok_model.
   - now apply access_ok_model.
@@ -569,14 +603,14 @@ Section Readable.
   Variable verify : jwk -> sigentry -> string -> bool.
   Variable H : hkind -> string -> list nat.
   Variable E : list nat -> list nat.
-  Variables (issuer : string) (f : flow) (cl : client) (k : sigkey) (extra : list jwk)
+  Variables (issuer : string) (f : flow) (cl : client) (kat kid : sigkey) (keys : list jwk)
             (u : option user) (rq : request) (state : string) (ids : next_ids) (en : entropy) (now : Z).
-  Let r := create_token_response H E issuer f cl k u rq state ids en now.
+  Let r := create_token_response H E issuer f cl kat kid u rq state ids en now.
 
   Lemma resp_r_id j ic :
     r_id r = Some (j, ic) ->
-    eff_client f rq cl = cl /\ j = sign_desc k
-    /\ ic = mk_id_token H issuer f cl k u rq (access_wire (r_access r)) now.
+    eff_client f rq cl = cl /\ j = sign_desc kid
+    /\ ic = mk_id_token H issuer f cl kid u rq (access_wire (r_access r)) now.
   Proof.
     unfold r, create_token_response. cbn [r_id r_access].
     destruct (has_id_token f (rq_scopes rq)) eqn:Eh; [|discriminate].
@@ -586,7 +620,7 @@ Section Readable.
   (* what every issued ID token says *)
   Theorem id_token_claims j ic :
     r_id r = Some (j, ic) ->
-    j = sign_desc k
+    j = sign_desc kid
     /\ i_iss ic = issuer
     /\ string_in (cl_id cl) (i_aud ic) = true
     /\ i_azp ic = cl_id cl
@@ -599,8 +633,8 @@ Section Readable.
     /\ i_iat ic = (sec now - cl_skew cl)%Z
     /\ (i_exp ic - i_iat ic = cl_id_life cl + 2 * cl_skew cl)%Z
     /\ i_at_hash ic = (if access_wire (r_access r) =s "" then ""
-                       else claim_hash H (sk_alg k) (access_wire (r_access r)))
-    /\ i_c_hash ic = (if flow_code f =s "" then "" else claim_hash H (sk_alg k) (flow_code f))
+                       else claim_hash H (sk_alg kid) (access_wire (r_access r)))
+    /\ i_c_hash ic = (if flow_code f =s "" then "" else claim_hash H (sk_alg kid) (flow_code f))
     /\ (let g := granted f cl rq (access_wire (r_access r)) in
         (i_name ic <> "" \/ i_username ic <> "" -> string_in "profile" g = true)
         /\ (i_email ic <> "" \/ i_email_verified ic = true -> string_in "email" g = true)
@@ -610,10 +644,10 @@ Section Readable.
   Proof.
     intro Hid. destruct (resp_r_id j ic Hid) as (_ & Hj & Hic).
     set (acc := access_wire (r_access r)) in *.
-    pose proof (id_core H issuer f cl k u rq acc now)
+    pose proof (id_core H issuer f cl kid u rq acc now)
       as (Iiss & Iaud & Iazp & _ & Iexp & Iiat & Iauth & Inonce & Iacr & Iamr & Iath & Ich & Iex).
-    pose proof (id_sub H issuer f cl k u rq acc now) as Isub.
-    pose proof (id_user_claims H issuer f cl k u rq acc now) as (Un & Ue & Uv & Uu & Up & Upv & Ua).
+    pose proof (id_sub H issuer f cl kid u rq acc now) as Isub.
+    pose proof (id_user_claims H issuer f cl kid u rq acc now) as (Un & Ue & Uv & Uu & Up & Upv & Ua).
     rewrite <- Hic in *. cbv zeta.
     repeat split; try assumption.
     - rewrite Iaud. apply string_in_append_client.
@@ -627,25 +661,26 @@ Section Readable.
   (* ... and the relying party's check sequence accepts it *)
   Theorem id_token_verifies j ic v vnow :
     r_id r = Some (j, ic) ->
-    sign_complete verify k -> key_ok k = true -> hash_of_alg (sk_alg k) <> None ->
+    sign_complete verify kid -> key_ok kid = true -> published_once kid keys = true ->
+    hash_of_alg (sk_alg kid) <> None ->
     rq_sub rq <> "" -> cl_id cl <> "" ->
-    rp_consistent issuer f cl k rq v now vnow ->
-    let ks := KSOpenID (Some (served_keys k extra)) in
-    verify_id_token verify v ks (sym_token j) (MidOk "P" (to_c01 ic)) vnow = Accept (to_c01 ic) (sk_alg k)
+    rp_consistent issuer f cl kid rq v now vnow ->
+    let ks := KSOpenID (Some (served_keys keys)) in
+    verify_id_token verify v ks (sym_token j) (MidOk "P" (to_c01 ic)) vnow = Accept (to_c01 ic) (sk_alg kid)
     /\ verify_tokens verify H v ks (sym_token j) (MidOk "P" (to_c01 ic)) (access_wire (r_access r)) vnow
-       = Accept (to_c01 ic) (sk_alg k).
+       = Accept (to_c01 ic) (sk_alg kid).
   Proof.
-    intros Hid Hs Hk Ha Hsub Hcl C. cbv zeta.
+    intros Hid Hs Hk Hp Ha Hsub Hcl C. cbv zeta.
     destruct (resp_r_id j ic Hid) as (_ & Hj & Hic).
     set (acc := access_wire (r_access r)) in *.
-    pose proof (id_core H issuer f cl k u rq acc now)
+    pose proof (id_core H issuer f cl kid u rq acc now)
       as (Iiss & Iaud & Iazp & _ & Iexp & Iiat & _ & Inonce & Iacr & _ & Iath & _).
-    pose proof (id_sub H issuer f cl k u rq acc now) as Isub.
+    pose proof (id_sub H issuer f cl kid u rq acc now) as Isub.
     rewrite <- Hic in *. subst j.
     destruct C as [Ca Ci Ccl Co0 Co Cl Cn0 Ciat Cv0 Cv1 Cn Cacr Cma Cmi].
     pose proof (sec_bounds now) as Sb.
-    assert (Hv : verify_id_token verify v (KSOpenID (Some (served_keys k extra)))
-                   (sym_token (sign_desc k)) (MidOk "P" (to_c01 ic)) vnow = Accept (to_c01 ic) (sk_alg k)).
+    assert (Hv : verify_id_token verify v (KSOpenID (Some (served_keys keys)))
+                   (sym_token (sign_desc kid)) (MidOk "P" (to_c01 ic)) vnow = Accept (to_c01 ic) (sk_alg kid)).
     { apply verify_id_accepts; cbn [to_c01 c_sub c_iss c_aud c_azp c_exp c_iat c_nonce c_acr]; try assumption.
       - now rewrite Isub.
       - now rewrite Iiss, Ci.
@@ -666,7 +701,7 @@ Section Readable.
   Theorem access_jwt_verifies w j a algs vnow :
     r_access r = AJwt w j a ->
     let cl' := eff_client f rq cl in
-    j = sign_desc k
+    j = sign_desc kat
     /\ a_iss a = issuer /\ a_sub a = rq_sub rq
     /\ a_aud a = (match rq_aud rq with [] => [cl_id cl'] | l => l end)
     /\ a_client_id a = cl_id cl'
@@ -675,12 +710,12 @@ Section Readable.
     /\ a_iat a = (sec now - cl_skew cl')%Z /\ a_nbf a = a_iat a
     /\ (forall e, In e (a_extra a) ->
           string_in ("custom:" ++ fst e)%string (restrict (cl_drop_at cl') (rq_scopes rq)) = true)
-    /\ (sign_complete verify k -> key_ok k = true ->
-        string_in (sk_alg k) (effective_algs algs) = true ->
+    /\ (sign_complete verify kat -> key_ok kat = true -> published_once kat keys = true ->
+        string_in (sk_alg kat) (effective_algs algs) = true ->
         (0 <= vnow)%Z -> (vnow < st_exp now (cl_at_life cl') * ns)%Z ->
         verify_access_token verify (mkVerifier issuer "" 0 0 0 None None algs)
-                            (KSOpenID (Some (served_keys k extra)))
-                            (sym_token j) (MidOk "P" (at_to_c01 a)) vnow = Accept (at_to_c01 a) (sk_alg k)).
+                            (KSOpenID (Some (served_keys keys)))
+                            (sym_token j) (MidOk "P" (at_to_c01 a)) vnow = Accept (at_to_c01 a) (sk_alg kat)).
   Proof.
     unfold r, create_token_response. cbn [r_access]. cbv zeta.
     set (cl' := eff_client f rq cl).
@@ -691,7 +726,7 @@ Section Readable.
     repeat split.
     - intros e He. destruct (is_exchange f); [destruct He|].
       apply custom_claims_in in He. unfold remove_userinfo in He. now apply string_in_filter in He.
-    - intros Hs Hk Ha H0 H1.
+    - intros Hs Hk Hp Ha H0 H1.
       apply verify_access_accepts; try assumption; reflexivity.
   Qed.
 
@@ -719,7 +754,8 @@ Definition ex_wire : string :=
 Definition ex_case : case :=
   mkCase 0 "https://op.example.com" (FCode "code-1")
     (mkClient "web" false (-30) 3600 300 true true [] [])
-    (mkKey "sig-es384-1" "ES384" KEc 0) []
+    (mkKey "sig-1" "ES384" KEc 4) (mkKey "sig-1-next" "RS256" KRsa 0) 0
+    [mkJwk "sig-1" "enc" KEc 5; mkJwk "sig-1" "sig" KRsa 1; mkJwk "sig-1" "" KEc 4; mkJwk "prev" "sig" KEc 5]
     (Some (mkUser "Alice" "alice@example.com" "u-alice" "tel-alice" "addr-alice"))
     (mkReq "tenant:alice" ["web"] ["openid"; "profile"; "address"; "offline_access"] "n1" "" ["pwd"] 1790000000)
     "st" (mkIds "at2" "rt2" "at3") (mkEnt (repeat 7 16) "")
@@ -739,4 +775,32 @@ Proof.
   split.
   - eexists. eexists. split; [vm_compute; reflexivity|]. split; [reflexivity|]. split; discriminate.
   - split; [eexists; vm_compute; reflexivity | vm_compute; reflexivity].
+Qed.
+
+(* the signing key changes between the two SigningKey calls of one response:
+   the JWT access token is made with the first key, the ID token - header,
+   signature and hash family - with the second; both verify *)
+Definition ex_case_rot : case :=
+  mkCase 1 "https://op.example.com" (FCode "code-1")
+    (mkClient "web" true 0 3600 300 false true [] [])
+    (mkKey "sig-1" "ES384" KEc 4) (mkKey "sig-1-next" "RS256" KRsa 0) 1
+    [mkJwk "sig-1-next" "" KRsa 0; mkJwk "sig-1" "sig" KEc 4]
+    (Some (mkUser "Alice" "alice@example.com" "u-alice" "tel-alice" "addr-alice"))
+    (mkReq "alice" ["web"] ["openid"; "address"] "n1" "" ["pwd"] 1790000000)
+    "st" (mkIds "at2" "rt2" "at3") (mkEnt (repeat 7 16) "h.p.s")
+    1790000100500000000 1790000100600000000 1790000100700000000
+    (mkVerifier "https://op.example.com" "web" 1000000000 0 0 (Some "n1") None ["ES384"; "RS256"]) ["RS256"; "ES384"]
+    [("h.p.s", ([1;2;3;4], [5;6;7;8], [9;9;9;9])); ("code-1", ([5;6;7;8], [1;1;1;1], [2;2;2;2]))]
+    [].
+
+Example spec_model_rotation_nonvacuous :
+  wf ex_case_rot = true /\ consistent ex_case_rot = true /\ at_consistent ex_case_rot = true
+  /\ (exists w a, r_access (model_response ex_case_rot) = AJwt w (mkJ "ES384" "sig-1" "JWT" (Some 4%N)) a)
+  /\ (exists ic, r_id (model_response ex_case_rot) = Some (mkJ "RS256" "sig-1-next" "JWT" (Some 0%N), ic)
+                 /\ i_at_hash ic = claim_hash (lookup_hash (cs_hashes ex_case_rot)) "RS256" "h.p.s"
+                 /\ i_addr ic = "").
+Proof.
+  split; [vm_compute; reflexivity|]. split; [vm_compute; reflexivity|]. split; [vm_compute; reflexivity|].
+  split; [eexists; eexists; vm_compute; reflexivity|].
+  eexists. split; [vm_compute; reflexivity|]. split; vm_compute; reflexivity.
 Qed.
